@@ -89,7 +89,10 @@ def decorate(rng, src: str) -> str:
     if r < 0.4:
         n = rng.choice(SHORT)
         extra = rng.choice([f"{n}()", f"{n}(ds, ds)", f"{n}(ds, 1, 2)", f"ds.{n}", n, f"{n}.x", f"ds.{n}(ds)",
-                            f"{rng.choice(_variants(n))}(ds)", f"{n}(*ds)", f"{n}(k=ds)"])
+                            f"{rng.choice(_variants(n))}(ds)", f"{n}(*ds)", f"{n}(k=ds)",
+                            # another argument count: the call itself stays, the shortcuts INSIDE its arguments are lowered
+                            f"{n}(len(ds), Count(ds))", f"{n}(Select(ds, lambda r: len(r.nums)), 100)", f"{n}(Sum(ds), k={rng.choice(SHORT)}(ds))",
+                            f"{n}({rng.choice(SHORT)}(ds), {rng.choice(SHORT)}(ds), 3)", f"ds.{n}(len(ds), 1)", f"{n}(k={rng.choice(SHORT)}(ds.nums))"])
         return f"({src}, {extra})"
     if r < 0.55:
         n, m = rng.choice(SHORT), rng.choice(SHORT)
